@@ -20,6 +20,8 @@ SAFE_MUT = {"clear", "reserve", "reserve_exact", "shrink_to_fit", "shrink_to", "
 # calls that only derive another pointer / view
 PROPAGATE = {"deref_mut", "deref", "index_mut", "index", "as_mut_slice", "as_mut", "iter_mut", "into_iter", "split_at_mut", "as_mut_ptr", "borrow_mut", "digits_mut", "rev", "zip", "enumerate", "skip", "take", "chunks_mut", "next", "by_ref", "split_first_mut", "split_last_mut", "last_mut", "first_mut", "get_mut"}
 NORMALISERS = {"normalize", "normalized", "biguint_from_vec", "set_zero", "set_one", "assign_from_slice"}
+# reads that interpret the digit vector as a number: wrong on a vector with high zero digits
+VALUE_READS = {"cmp", "partial_cmp", "lt", "le", "gt", "ge", "eq", "ne", "is_zero", "is_one", "bits", "hash", "is_even", "is_odd"}
 
 # trusted post-conditions (normal form preserved for an arithmetic reason the analysis cannot see)
 TRUSTED = {
@@ -36,6 +38,9 @@ TRUSTED = {
     "biguint::BigUint::normalize": "the normaliser itself (its body is checked by R1-normalize-body)",
     "biguint::monty::montgomery": "private: returns an almost-reduced value that may carry high zeros; monty_modpow normalises before any comparison/escape",
 }
+
+
+DENORMAL_RETURN = {"biguint::monty::montgomery"}
 
 
 def _root_of_place(b, pl, depth=0):
@@ -147,7 +152,7 @@ def analyse_body(facts, b):
             r = _root_of_place(b, rv["place"])
             if r is not None:
                 derived[s["place"]["local"]] = r
-    if not derived and not any(s["k"] == "assign" and s["rv"]["k"] == "aggregate" and s["rv"].get("adt") == BIGUINT for i, si, s in b.stmts()):
+    if not derived and not any(s["k"] == "assign" and s["rv"]["k"] == "aggregate" and s["rv"].get("adt") == BIGUINT for i, si, s in b.stmts()) and not any(callee(t) in DENORMAL_RETURN for i, t in b.calls()):
         return None
     # 2. propagate through copies / reborrows / pointer-deriving calls / iterator items
     changed = True
@@ -242,6 +247,21 @@ def analyse_body(facts, b):
             if nm in ("extend_from_slice", "extend") and _extends_with_normal_tail(b, t):
                 continue
             writes.setdefault(r, []).append((i, "%s(..)" % nm, t["span"]["line"]))
+    # results of private helpers that are allowed to return a value with high zero digits
+    def moved_into(l):
+        # an unnamed temporary that is moved into a variable: the variable is the root
+        for _ in range(4):
+            if b.locals[l].get("name"):
+                return l
+            nxt = [s2["place"]["local"] for _i, _si, s2 in b.stmts() if s2["k"] == "assign" and not s2["place"]["proj"] and s2["rv"]["k"] == "use" and s2["rv"]["op"]["k"] == "move" and op_local(s2["rv"]["op"]) == l]
+            if len(set(nxt)) != 1:
+                return l
+            l = nxt[0]
+        return l
+
+    for i, t in b.calls():
+        if i in live and callee(t) in DENORMAL_RETURN and not t["dest"]["proj"]:
+            writes.setdefault(("local", moved_into(t["dest"]["local"]), ()), []).append((i, "result of %s (may carry high zero digits)" % callee(t).split("::")[-1], t["span"]["line"]))
     for i, si, s in b.stmts():
         if i not in live or s["k"] != "assign":
             continue
@@ -258,9 +278,37 @@ def analyse_body(facts, b):
         if rv["k"] == "aggregate" and rv.get("adt") == BIGUINT and not pl["proj"]:
             if not _normal_vec_source(b, {"k": "use", "op": rv["ops"][0]}):
                 writes.setdefault(("local", pl["local"], ()), []).append((i, "BigUint { data } literal", s["span"]["line"]))
+    # 3b. value-level reads of a root (comparisons, zero/one tests, bit length): only meaningful on a normal value
+    value_uses = {}
+    for i, t in b.calls():
+        if i not in live:
+            continue
+        nm = callee_name(t)
+        if nm in VALUE_READS:
+            for a in t["args"]:
+                pl = core.op_place(a)
+                if pl is None:
+                    continue
+                base = _base_of_local(b, pl["local"])
+                if base is None or base[0] != "local":
+                    continue
+                f = tuple(e.get("name") for e in pl["proj"] if e["k"] == "field")
+                r = (base[0], base[1], base[2] + f)
+                if "biguint::BigUint" in b.local_ty(base[1]) or "bigint::BigInt" in b.local_ty(base[1]):
+                    value_uses.setdefault(r, []).append((i, nm, t["span"]["line"]))
     # 4. obligations
     problems = []
     rets = set(b.return_blocks())
+    for r, ws in writes.items():
+        ns = norms.get(r, set())
+        for (ubb, unm, uline) in value_uses.get(r, []):
+            for (wbb, desc, line) in ws:
+                if wbb == ubb:
+                    continue
+                reach = b.reachable(wbb, without_blocks=[x for x in ns if x != wbb])
+                if ubb in reach and wbb not in ns:
+                    problems.append((r, "%s, then read as a value by %s() at line %s without normalisation" % (desc, unm, uline), line))
+                    break
     for r, ws in writes.items():
         if not _escapes(b, r):
             continue
